@@ -671,6 +671,77 @@ func init() {
 		}
 		return types.Implements(args[0].(rtype).t, it)
 	})
+	reg("(reflect.rtype).PkgPath", "type-tag model", func(fr *frame, args []value) value {
+		if n, ok := args[0].(rtype).t.(*types.Named); ok && n.Obj().Pkg() != nil {
+			return n.Obj().Pkg().Path()
+		}
+		return ""
+	})
+	reg("(reflect.rtype).FieldByName", "type-tag model", func(fr *frame, args []value) value {
+		st, ok := args[0].(rtype).t.Underlying().(*types.Struct)
+		if !ok {
+			reflectPanic("reflect: FieldByName of non-struct type " + typeString(args[0].(rtype).t))
+		}
+		name, isStr := args[1].(string)
+		if !isStr {
+			unsupported("Type.FieldByName with a symbolic name")
+		}
+		for i := 0; i < st.NumFields(); i++ {
+			f := st.Field(i)
+			if f.Name() == name {
+				pkg := ""
+				if !f.Exported() && f.Pkg() != nil {
+					pkg = f.Pkg().Path()
+				}
+				return tuple{structure{f.Name(), pkg, makeReflectType(rtype{f.Type()}), st.Tag(i), uintptr(0), []value{i}, f.Anonymous()}, true}
+			}
+		}
+		return tuple{structure{"", "", iface{}, "", uintptr(0), []value(nil), false}, false}
+	})
+	reg("(reflect.Value).FieldByIndex", "type-tag model", func(fr *frame, args []value) value {
+		v := args[0].(structure)
+		idx, _ := args[1].([]value)
+		for _, iv := range idx {
+			if !rvValid(v) {
+				reflectPanic("reflect: call of reflect.Value.FieldByIndex on zero Value")
+			}
+			st, ok := rV2T(v).t.Underlying().(*types.Struct)
+			if !ok {
+				reflectPanic("reflect: call of reflect.Value.Field on " + kindOf(rV2T(v).t).String() + " Value")
+			}
+			i := int(asInt64(iv))
+			if i < 0 || i >= st.NumFields() {
+				reflectPanic("reflect: Field index out of range")
+			}
+			f := st.Field(i)
+			nv := makeReflectValue(f.Type(), rV2V(v).(structure)[i]).(structure)
+			if !f.Exported() || (len(v) > 2 && v[2] == true) {
+				nv[2] = true
+			}
+			v = nv
+		}
+		return v
+	})
+	reg("(reflect.Value).Field", "type-tag model", func(fr *frame, args []value) value {
+		v := args[0].(structure)
+		if !rvValid(v) {
+			reflectPanic("reflect: call of reflect.Value.Field on zero Value")
+		}
+		st, ok := rV2T(v).t.Underlying().(*types.Struct)
+		if !ok {
+			reflectPanic("reflect: call of reflect.Value.Field on " + kindOf(rV2T(v).t).String() + " Value")
+		}
+		i := int(fr.conc(args[1]))
+		if i < 0 || i >= st.NumFields() {
+			reflectPanic("reflect: Field index out of range")
+		}
+		f := st.Field(i)
+		nv := makeReflectValue(f.Type(), rV2V(v).(structure)[i]).(structure)
+		if !f.Exported() || (len(v) > 2 && v[2] == true) {
+			nv[2] = true
+		}
+		return nv
+	})
 	reg("(reflect.rtype).Len", "type-tag model", func(fr *frame, args []value) value {
 		a, ok := args[0].(rtype).t.Underlying().(*types.Array)
 		if !ok {
